@@ -1,6 +1,216 @@
 ------------------------------ MODULE TwBuiltins ------------------------------
-(* Contracts of the built-in functions (C11). *)
+(***************************************************************************)
+(* Contracts of the built-in functions (C11, C09).  One operator per       *)
+(* built-in stating WHAT it returns, not how: len counts characters,       *)
+(* reverse/at/first/last/truncate/capitalize work on characters, slice     *)
+(* clamps its bounds, contains is structural equality, round is half away  *)
+(* from zero, ...  Every operator is total: a value, Err(..) where C11     *)
+(* demands an error (wrong argument kinds, missing arguments), or Unspec   *)
+(* where no property fixes the result (negative counts, ...; C09 still     *)
+(* requires that the implementation returns).                              *)
+(*                                                                         *)
+(* Strings that need character-level treatment are CStr(cs): a sequence of *)
+(* abstract characters (1-character strings; "$e$" "$u$" "$g$" stand for   *)
+(* two-, three- and four-byte UTF-8 characters).                           *)
+(***************************************************************************)
 EXTENDS TwValues
 
-CallFn(f, recv, args) == Unspec
+CStr(cs) == [t |-> "str", cs |-> cs]       \* a string value with its characters exposed
+IsC(v) == v.t = "str" /\ "cs" \in DOMAIN v
+RECURSIVE CatC(_)
+CatC(cs) == IF cs = <<>> THEN "" ELSE cs[1] \o CatC(Tail(cs))
+RECURSIVE ShowB(_)
+RECURSIVE JoinB(_, _)
+JoinB(vs, sep) == IF vs = <<>> THEN "" ELSE IF Len(vs) = 1 THEN ShowB(vs[1]) ELSE ShowB(vs[1]) \o sep \o JoinB(Tail(vs), sep)
+ShowB(v) == IF v.t = "str" /\ IsC(v) THEN CatC(v.cs)
+            ELSE IF v.t = "arr" THEN JoinB(v.es, ", ")
+            ELSE Show(v)
+PrintableB(v) == IF v.t = "arr" THEN \A i \in 1..Len(v.es) : (v.es[i].t # "obj" \/ Len(v.es[i].ps) <= 1) /\ ~Bad(v.es[i])
+                 ELSE Printable(v)
+
+(* ----------------------------- characters ----------------------------- *)
+UpperCh(c) == CASE c = "a" -> "A" [] c = "b" -> "B" [] c = "$e$" -> "$E$" [] OTHER -> c
+LowerCh(c) == CASE c = "A" -> "a" [] c = "B" -> "b" [] c = "$E$" -> "$e$" [] OTHER -> c
+RECURSIVE Rev(_)
+Rev(s) == IF s = <<>> THEN <<>> ELSE Rev(Tail(s)) \o <<s[1]>>
+Map(f(_), s) == [i \in 1..Len(s) |-> f(s[i])]
+IsPre(p, s) == Len(p) <= Len(s) /\ SubSeq(s, 1, Len(p)) = p
+RECURSIVE HasSub(_, _)
+HasSub(s, sub) == IF IsPre(sub, s) THEN TRUE ELSE IF s = <<>> THEN FALSE ELSE HasSub(Tail(s), sub)
+RECURSIVE DropWhileIn(_, _)
+DropWhileIn(s, cut) == IF s # <<>> /\ s[1] \in cut THEN DropWhileIn(Tail(s), cut) ELSE s
+TrimL(s, cut) == DropWhileIn(s, cut)
+TrimR(s, cut) == Rev(DropWhileIn(Rev(s), cut))
+Chars(s) == {s[i] : i \in 1..Len(s)}
+WS == {" ", "\t", "\n", "$r$"}
+\* split s at every occurrence of the (non-empty) separator
+RECURSIVE SplitAt(_, _, _)
+SplitAt(s, sep, cur) == IF s = <<>> THEN <<cur>>
+                        ELSE IF IsPre(sep, s) THEN <<cur>> \o SplitAt(SubSeq(s, Len(sep) + 1, Len(s)), sep, <<>>)
+                        ELSE SplitAt(Tail(s), sep, Append(cur, s[1]))
+RECURSIVE Times(_, _)
+Times(s, n) == IF n <= 0 THEN <<>> ELSE s \o Times(s, n - 1)
+RECURSIVE Zeros(_)
+Zeros(n) == IF n <= 0 THEN "" ELSE "0" \o Zeros(n - 1)
+IsDigitC(c) == c \in {"0", "1", "2", "3", "4", "5", "6", "7", "8", "9"}
+\* does the character sequence spell a (small) integer, as strconv.Atoi accepts it?
+IsIntStr(s) == LET body == IF s # <<>> /\ s[1] \in {"-", "+"} THEN Tail(s) ELSE s IN
+               body # <<>> /\ \A i \in 1..Len(body) : IsDigitC(body[i])
+
+(* ------------------------------ arguments ------------------------------ *)
+NArgs(args) == Len(args)
+IsInt(v) == v.t = "int"
+IsStr(v) == v.t = "str"
+SmallInt(v) == v.t = "int" /\ IsSmall(v)
+ArgErr(w) == Err("argument: " \o w)
+\* the characters of a string argument (opaque strings used as arguments are never generated)
+ArgC(v) == v.cs
+
+(* ------------------------------- strings ------------------------------- *)
+StrFn(f, r, args) ==
+  LET s == r.cs  n == Len(args) IN
+  CASE f = "len" -> I(Len(s))
+    [] f = "upper" -> CStr(Map(UpperCh, s))
+    [] f = "lower" -> CStr(Map(LowerCh, s))
+    [] f = "capitalize" -> IF s = <<>> THEN CStr(<<>>) ELSE CStr(<<UpperCh(s[1])>> \o Tail(s))
+    [] f = "reverse" -> CStr(Rev(s))
+    [] f = "raw" -> Unspec                                   \* C10
+    [] f \in {"trim", "trimLeft", "trimRight"} ->
+         IF n >= 1 /\ ~IsStr(args[1]) THEN ArgErr("first must be a string")
+         ELSE LET cut == IF n >= 1 THEN Chars(ArgC(args[1])) ELSE WS IN
+              (CASE f = "trim" -> CStr(TrimR(TrimL(s, cut), cut))
+                 [] f = "trimLeft" -> CStr(TrimL(s, cut))
+                 [] f = "trimRight" -> CStr(TrimR(s, cut)))
+    [] f = "split" ->
+         IF n >= 1 /\ ~IsStr(args[1]) THEN ArgErr("first must be a string")
+         ELSE LET sep == IF n >= 1 THEN ArgC(args[1]) ELSE <<" ">> IN
+              IF sep = <<>> THEN Unspec
+              ELSE LET parts == SplitAt(s, sep, <<>>) IN A([i \in 1..Len(parts) |-> CStr(parts[i])])
+    [] f = "contains" ->
+         IF n = 0 THEN ArgErr("requires one argument")
+         ELSE IF ~IsStr(args[1]) THEN ArgErr("first must be a string")
+         ELSE B(HasSub(s, ArgC(args[1])))
+    [] f = "truncate" ->
+         IF n = 0 THEN ArgErr("requires one argument")
+         ELSE IF ~IsInt(args[1]) THEN ArgErr("first must be an integer")
+         ELSE IF n >= 2 /\ ~IsStr(args[2]) THEN ArgErr("second must be a string")
+         ELSE IF ~IsSmall(args[1]) THEN (IF args[1].ib = "max" THEN CStr(s) ELSE Unspec)
+         ELSE LET lim == args[1].io  ell == IF n >= 2 THEN ArgC(args[2]) ELSE <<".", ".", ".">> IN
+              IF lim >= Len(s) THEN CStr(s)
+              ELSE IF lim < 0 THEN Unspec                    \* negative count: an error or a defined result (C09)
+              ELSE CStr(SubSeq(s, 1, lim) \o ell)
+    [] f = "at" ->
+         IF n >= 1 /\ ~IsInt(args[1]) THEN ArgErr("first must be an integer")
+         ELSE IF n >= 1 /\ ~IsSmall(args[1]) THEN Unspec
+         ELSE LET i == IF n >= 1 THEN args[1].io ELSE 0 IN
+              IF i >= 0 /\ i < Len(s) THEN CStr(<<s[i + 1]>>)
+              ELSE IF i < 0 /\ -i <= Len(s) THEN CStr(<<s[Len(s) + i + 1]>>)
+              ELSE Unspec                                    \* out of range: nil or an error, never a crash
+    [] f = "first" -> IF s = <<>> THEN Unspec ELSE CStr(<<s[1]>>)
+    [] f = "last" -> IF s = <<>> THEN Unspec ELSE CStr(<<s[Len(s)]>>)
+    [] f = "repeat" ->
+         IF n = 0 THEN ArgErr("requires one argument")
+         ELSE IF ~IsInt(args[1]) THEN ArgErr("first must be an integer")
+         ELSE IF ~IsSmall(args[1]) \/ args[1].io < 0 THEN Unspec
+         ELSE CStr(Times(s, args[1].io))
+    [] f = "decimal" ->
+         IF n > 2 THEN Unspec
+         ELSE IF ~IsIntStr(s) THEN CStr(s)
+         ELSE IF n >= 1 /\ ~IsStr(args[1]) THEN ArgErr("first must be a string")
+         ELSE IF n = 2 /\ ~IsInt(args[2]) THEN ArgErr("second must be an integer")
+         ELSE IF n = 2 /\ (~IsSmall(args[2]) \/ args[2].io < 0) THEN Unspec
+         ELSE LET sep == IF n >= 1 THEN CatC(ArgC(args[1])) ELSE "."
+                  d == IF n = 2 THEN args[2].io ELSE 2 IN
+              IF d = 0 THEN CStr(s) ELSE S(CatC(s) \o sep \o Zeros(d))
+    [] OTHER -> Err("no such function")
+
+(* ------------------------------- arrays ------------------------------- *)
+\* structural equality of values (contains)
+RECURSIVE SameV(_, _)
+SameV(a, b) == IF a.t # b.t THEN FALSE
+               ELSE CASE a.t = "int" -> IEq(a, b) [] a.t = "float" -> FEq(a, b)
+                      [] a.t = "str" -> ShowB(a) = ShowB(b) [] a.t = "bool" -> a.bv = b.bv [] a.t = "nil" -> TRUE
+                      [] a.t = "arr" -> Len(a.es) = Len(b.es) /\ \A i \in 1..Len(a.es) : SameV(a.es[i], b.es[i])
+                      [] a.t = "obj" -> /\ Len(a.ps) = Len(b.ps)
+                                        /\ \A i \in 1..Len(a.ps) : HasKey(b, a.ps[i].pk) /\ SameV(a.ps[i].pv, GetKey(b, a.ps[i].pk))
+Clamp(x, lo, hi) == IF x < lo THEN lo ELSE IF x > hi THEN hi ELSE x
+ArrFn(f, r, args) ==
+  LET es == r.es  n == Len(args)  len == Len(r.es) IN
+  CASE f = "len" -> I(len)
+    [] f = "reverse" -> A(Rev(es))
+    [] f = "join" -> IF n >= 1 /\ ~IsStr(args[1]) THEN ArgErr("first must be a string")
+                     ELSE IF \E i \in 1..len : ~PrintableB(es[i]) THEN Unspec
+                     ELSE S(JoinB(es, IF n >= 1 THEN CatC(ArgC(args[1])) ELSE ","))
+    [] f = "contains" -> IF n = 0 THEN ArgErr("requires one argument")
+                         ELSE B(\E i \in 1..len : SameV(es[i], args[1]))
+    [] f = "append" -> IF n = 0 THEN ArgErr("requires one argument") ELSE A(es \o args)
+    [] f = "prepend" -> IF n = 0 THEN ArgErr("requires one argument") ELSE A(args \o es)
+    [] f = "slice" ->
+         IF n = 0 THEN ArgErr("requires one argument")
+         ELSE IF ~IsInt(args[1]) THEN ArgErr("first must be an integer")
+         ELSE IF n >= 2 /\ ~IsInt(args[2]) THEN ArgErr("second must be an integer")
+         ELSE IF ~IsSmall(args[1]) \/ (n >= 2 /\ ~IsSmall(args[2])) THEN Unspec
+         ELSE LET st == Clamp(args[1].io, 0, len)
+                  en == IF n >= 2 /\ args[2].io >= 0 /\ args[2].io <= len THEN args[2].io ELSE len IN
+              IF st > en THEN Unspec                         \* crossed bounds: empty or an error, never a crash
+              ELSE A(SubSeq(es, st + 1, en))
+    [] f = "rand" -> [t |-> "oneof", alts |-> IF len = 0 THEN {Nil} ELSE {es[i] : i \in 1..len}]
+    [] f = "shuffle" -> [t |-> "perm", of |-> es]
+    [] OTHER -> Err("no such function")
+
+(* ------------------------------- numbers ------------------------------- *)
+FloorDiv(a, d) == IF a >= 0 THEN a \div d ELSE -((-a + d - 1) \div d)      \* d > 0
+FFloor(x) == FloorDiv(x.fn, Pow2(x.fe))
+FCeil(x) == -FloorDiv(-x.fn, Pow2(x.fe))
+FTrunc(x) == IF x.fn >= 0 THEN FFloor(x) ELSE FCeil(x)
+FRound(x) == LET a == AbsI(x.fn)  q == (2 * a + Pow2(x.fe)) \div (2 * Pow2(x.fe)) IN IF x.fn < 0 THEN -q ELSE q
+StrOfFloat(x) == IF x.fe = 0 THEN ToString(x.fn) ELSE ShowFloat(x)
+FloatFn(f, r, args) ==
+  CASE f = "int" -> I(FTrunc(r))
+    [] f = "floor" -> I(FFloor(r))
+    [] f = "ceil" -> I(FCeil(r))
+    [] f = "round" -> I(FRound(r))
+    [] f = "abs" -> F(AbsI(r.fn), r.fe)
+    [] f = "str" -> S(StrOfFloat(r))
+    [] OTHER -> Err("no such function")
+RECURSIVE Digits(_)
+Digits(n) == IF n < 10 THEN 1 ELSE 1 + Digits(n \div 10)
+IntFn(f, r, args) ==
+  LET n == Len(args) IN
+  CASE f = "float" -> IF IsSmall(r) THEN F(r.io, 0) ELSE Unspec
+    [] f = "abs" -> IF IsSmall(r) THEN I(AbsI(r.io)) ELSE IF r.ib = "max" THEN r
+                    ELSE IF r.io = 0 THEN Unspec ELSE INeg(r)          \* |min| does not exist in int64
+    [] f = "str" -> S(ShowInt(r))
+    [] f = "len" -> IF IsSmall(r) THEN I(Digits(AbsI(r.io))) ELSE I(19)
+    [] f = "decimal" ->
+         IF n > 2 THEN Unspec
+         ELSE IF n >= 1 /\ ~IsStr(args[1]) THEN ArgErr("first must be a string")
+         ELSE IF n = 2 /\ ~IsInt(args[2]) THEN ArgErr("second must be an integer")
+         ELSE IF n = 2 /\ (~IsSmall(args[2]) \/ args[2].io < 0) THEN Unspec
+         ELSE LET sep == IF n >= 1 THEN CatC(ArgC(args[1])) ELSE "."
+                  d == IF n = 2 THEN args[2].io ELSE 2 IN
+              IF d = 0 THEN S(ShowInt(r)) ELSE S(ShowInt(r) \o sep \o Zeros(d))
+    [] OTHER -> Err("no such function")
+BoolFn(f, r, args) ==
+  CASE f = "binary" -> I(IF r.bv THEN 1 ELSE 0)
+    [] f = "then" -> IF Len(args) = 0 THEN ArgErr("requires one argument")
+                     ELSE IF r.bv THEN args[1] ELSE IF Len(args) >= 2 THEN args[2] ELSE Nil
+    [] OTHER -> Err("no such function")
+
+\* dispatch by receiver type (evaluator/func.go); a name that is no built-in of the type is an error (C20 refines this
+\* for registered custom functions)
+CallFn(f, recv, args) ==
+  CASE recv.t = "str" -> IF IsC(recv) THEN StrFn(f, recv, args) ELSE Unspec
+    [] recv.t = "arr" -> ArrFn(f, recv, args)
+    [] recv.t = "float" -> FloatFn(f, recv, args)
+    [] recv.t = "int" -> IntFn(f, recv, args)
+    [] recv.t = "bool" -> BoolFn(f, recv, args)
+    [] OTHER -> Err("no functions for this type")
+
+StrFns == {"len", "split", "trim", "trimRight", "trimLeft", "upper", "lower", "capitalize", "reverse", "contains",
+           "truncate", "decimal", "at", "first", "last", "repeat"}
+ArrFns == {"len", "join", "rand", "reverse", "slice", "shuffle", "contains", "append", "prepend"}
+FloatFns == {"int", "str", "abs", "ceil", "floor", "round"}
+IntFns == {"float", "abs", "str", "len", "decimal"}
+BoolFns == {"binary", "then"}
 =============================================================================
